@@ -29,7 +29,36 @@ def main():
     if a.replay:
         replay = json.load(open(a.replay))
     tier = a.tier if a.tier in ("quick", "thorough") else "quick"
-    sys.exit(runner.run_check(a.prop.upper(), tier, a.seed, replay))
+    if os.environ.get("VALIDA_CHILD") == "1":
+        sys.exit(runner.run_check(a.prop.upper(), tier, a.seed, replay))
+    # Supervisor: the check itself runs in a child process.  An implementation that never returns from a C-level loop (for example
+    # `x in range(0, 2**62)` for a non-integer x) cannot be interrupted from inside the process; the supervisor ends such a run after a
+    # generous limit and reports that the property is no longer shown to hold, instead of hanging.
+    import signal
+    import subprocess
+    limit = int(os.environ.get("VALIDA_CHECK_LIMIT", "2700" if tier == "quick" else "21600"))
+    cmd = [sys.executable, "-m", "harness.cli", a.prop, "--tier", tier, "--seed", str(a.seed)] + (["--replay", a.replay] if a.replay else [])
+    child = subprocess.Popen(cmd, env=dict(os.environ, VALIDA_CHILD="1"), start_new_session=True)
+    try:
+        sys.exit(child.wait(timeout=limit))
+    except subprocess.TimeoutExpired:
+        try:
+            os.killpg(child.pid, signal.SIGKILL)
+        except OSError:
+            pass
+        child.wait()
+        pid = a.prop.upper()
+        rp = runner.write_replay(pid, {"property": pid, "kind": "check-timeout", "limit_seconds": limit, "tier": tier, "seed": a.seed,
+                                       "note": "the check did not finish within the limit (an implementation call that does not return, or "
+                                               "runs astronomically long, counts as a failure): the property is not shown to hold"})
+        print(f"VIOLATION property={pid} replay={rp} no-failing-input-found", flush=True)
+        sys.exit(1)
+    except KeyboardInterrupt:
+        try:
+            os.killpg(child.pid, signal.SIGKILL)
+        except OSError:
+            pass
+        raise
 
 
 if __name__ == "__main__":
